@@ -121,6 +121,8 @@ def cases():
                     spelling, brackets = variant, (variant % 2)
                     if nl == 1 and variant:
                         continue
+                    if nl == 4 and variant in (1, 2):
+                        continue  # four keys: symbols without brackets and letters with brackets only (budget)
                     b = shapes.build(nl, sk, ops, [5] * nl, [0] * (nl - 1), spelling, brackets, 0)
                     out.append((b.text, tuple(b.fc)))
     out.append(("[901]U[902]O[901]X[902]", ("901", "902")))
